@@ -358,6 +358,7 @@ const (
 	personaFolder
 	personaBoundary
 	numPersonas
+	personaWar = 100 // never stops: the minimum raise whenever a raise is on offer (only set by C06's tweak)
 )
 
 var hostileAmounts = []int64{0, -1, -50, -(1 << 40), 1, 1 << 50, math.MaxInt64, math.MinInt64}
@@ -370,6 +371,9 @@ type Op struct {
 
 func betAmount(r *rand.Rand, s *pokerface.GameState, cp *pokerface.PlayerState, persona int, hostile bool) int64 {
 	var amt int64
+	if persona == personaWar {
+		return s.Status.MiniBet
+	}
 	switch persona {
 	case personaMinRaiser:
 		amt = s.Status.MiniBet
@@ -413,6 +417,9 @@ func betAmount(r *rand.Rand, s *pokerface.GameState, cp *pokerface.PlayerState, 
 
 func raiseAmount(r *rand.Rand, s *pokerface.GameState, cp *pokerface.PlayerState, persona int, hostile bool, lastInc int64) int64 {
 	cw, prs := s.Status.CurrentWager, s.Status.PreviousRaiseSize
+	if persona == personaWar {
+		return cw + prs
+	}
 	if lastInc > 0 && r.Intn(4) == 0 {
 		// the boundary of the minimum-raise rule as the driver saw it (size of the last bet or raise actually made), not as the engine recorded it
 		return cw + lastInc + int64(r.Intn(3)) - 1
@@ -503,6 +510,21 @@ func chooseAction(r *rand.Rand, s *pokerface.GameState, c *Cfg, lastInc int64) O
 			name = "bet"
 		case r.Intn(2) == 0:
 			name = "allin"
+		case has("call"):
+			name = "call"
+		case has("check"):
+			name = "check"
+		default:
+			name = "allin"
+		}
+	case personaWar:
+		switch {
+		case has("pass"):
+			name = "pass"
+		case has("raise"):
+			name = "raise"
+		case has("bet"):
+			name = "bet"
 		case has("call"):
 			name = "call"
 		case has("check"):
